@@ -23,11 +23,11 @@ pub fn entry() -> Entry {
         shard,
         replay,
         level: "exploration",
-        rule: "(a) event buffers built through the native types and through the wire schema (dense, sparse, i64, sparse i64, string, mixed, empty; several tables) must decode to the same tables, columns, row counts and cells; (b) query responses with integer columns (constant, arithmetic, deltas and double deltas at the i8/i16/i32 boundaries +-1, extremes whose differences overflow i64, lengths 0-3), float, string, mixed, null and xor columns must decode value for value whatever layout the encoder chose; (c) xor float compression (mantissa None or 0..=52, max_regret in {0,30,100,1000}) must be bit-exact without mantissa and keep sign, exponent and the leading m mantissa bits with mantissa m. Non-trivial = length >= 3 and a non-trivial layout (not plain i64 / not all-equal floats); distinct = canonical case text",
+        rule: "(a) event buffers built through the native types and through the wire schema (dense, sparse, i64, sparse i64, string, mixed, empty; several tables) must decode to the same tables, columns, row counts and cells; (a') buffers built one row at a time through the row API (numeric columns receiving NULL / int / float per row in int-only, float-only and mixed profiles with no, some or many gaps; string columns; with and without an explicit timestamp) must hold, before and after the wire round trip, the cells that were logged (ints logged into a column that also received a float read as floats); (b) query responses with integer columns (constant, arithmetic, deltas and double deltas at the i8/i16/i32 boundaries +-1, extremes whose differences overflow i64, lengths 0-3), float, string, mixed, null and xor columns must decode value for value whatever layout the encoder chose; (c) xor float compression (mantissa None or 0..=52, max_regret in {0,30,100,1000}) must be bit-exact without mantissa and keep sign, exponent and the leading m mantissa bits with mantissa m. Non-trivial = length >= 3 and a non-trivial layout (not plain i64 / not all-equal floats); distinct = canonical case text",
         assumptions: &["NaN payloads are compared by bit pattern", "with a reduced mantissa only sign, exponent and the requested leading mantissa bits are compared"],
         quick_budget_s: 600,
         thorough_budget_s: 3600,
-        required_classes: &["int:constant", "int:arithmetic", "int:delta_i8_edge", "int:delta_i16_edge", "int:delta_i32_edge", "int:ddelta_i8_edge", "int:extreme", "int:len0", "int:len1", "int:len2", "float:nan_payloads", "float:repeats", "float:signflips", "float:subnormal", "mantissa:none", "mantissa:0", "mantissa:52", "mantissa:mid", "eb:sparse", "eb:mixed", "eb:empty", "col:mixed", "col:null", "col:string"],
+        required_classes: &["int:constant", "int:arithmetic", "int:delta_i8_edge", "int:delta_i16_edge", "int:delta_i32_edge", "int:ddelta_i8_edge", "int:extreme", "int:len0", "int:len1", "int:len2", "float:nan_payloads", "float:repeats", "float:signflips", "float:subnormal", "mantissa:none", "mantissa:0", "mantissa:52", "mantissa:mid", "eb:sparse", "eb:mixed", "eb:empty", "rows:int", "rows:float", "rows:int_and_float", "rows:string", "rows:gaps", "rows:first_value_late", "rows:int_after_gap_in_dense_float", "col:mixed", "col:null", "col:string"],
         exhaustive_claim: false,
     }
 }
@@ -38,6 +38,10 @@ pub enum Case {
     Floats { class: String, xs: Vec<FBits>, mantissa: Option<u32>, max_regret: u32 },
     Response { cols: Vec<(String, RCol)> },
     Events { req: Request, native: bool },
+    /// Rows logged one at a time through the row API (`TableBuffer::push_row_and_timestamp`), the way the logging client
+    /// builds its buffers. `strs[c]` says whether column c is a string column (a string in every row) or a numeric one
+    /// (NULL / int / float per row). `timestamp`: whether every row carries its own "timestamp" value.
+    Rows { strs: Vec<bool>, rows: Vec<Vec<Cell>>, timestamp: bool },
 }
 
 #[derive(Clone, Debug, PartialEq, Serialize, Deserialize)]
@@ -115,6 +119,31 @@ fn rcol() -> BoxedStrategy<RCol> {
     .boxed()
 }
 
+/// Numeric cell of a logged row. Profiles make the interesting column histories likely: int only, float only, and
+/// ints logged into a float column / floats into an int column; NULLs none, some, or many (late first value, gaps).
+fn num_cell(profile: u8, nulls: u8) -> BoxedStrategy<Cell> {
+    let int = prop_oneof![3 => -3i64..100, 1 => any::<i64>(), 1 => Just(i64::MAX), 1 => Just(i64::MIN), 1 => Just((1i64 << 53) + 1)].prop_map(Cell::Int);
+    let float = prop_oneof![3 => (-8i32..64).prop_map(|i| i as f64 / 4.0), 2 => any::<f64>(), 1 => Just(f64::NAN), 1 => Just(-0.0f64), 1 => Just(f64::INFINITY)].prop_map(Cell::float);
+    let (wi, wf) = match profile { 0 => (1, 0), 1 => (0, 1), 2 => (1, 3), _ => (3, 1) };
+    let wn = match nulls { 0 => 0, 1 => 1, _ => 4 };
+    let mut arms: Vec<(u32, BoxedStrategy<Cell>)> = vec![];
+    if wi > 0 { arms.push((wi * 2, int.boxed())); }
+    if wf > 0 { arms.push((wf * 2, float.boxed())); }
+    if wn > 0 { arms.push((wn, Just(Cell::Null).boxed())); }
+    proptest::strategy::Union::new_weighted(arms).boxed()
+}
+
+fn rows_case() -> BoxedStrategy<Case> {
+    (vec((prop_oneof![4 => Just(false), 1 => Just(true)], 0u8..4, 0u8..3), 1..5), 0usize..14, any::<bool>())
+        .prop_flat_map(|(cols, nrows, timestamp)| {
+            let strs: Vec<bool> = cols.iter().map(|c| c.0).collect();
+            let row: Vec<BoxedStrategy<Cell>> = cols.iter().map(|(is_str, profile, nulls)| if *is_str { "[a-z\\PC]{0,4}".prop_map(Cell::Str).boxed() } else { num_cell(*profile, *nulls) }).collect();
+            (Just(strs), vec(row, nrows..=nrows), Just(timestamp))
+        })
+        .prop_map(|(strs, rows, timestamp)| Case::Rows { strs, rows, timestamp })
+        .boxed()
+}
+
 fn case_strategy() -> BoxedStrategy<Case> {
     let schema = Schema { tables: vec!["t0".into(), "t\u{e4}".into(), "".into()], ..Schema::simple() };
     prop_oneof![
@@ -127,6 +156,7 @@ fn case_strategy() -> BoxedStrategy<Case> {
             Case::Response { cols: seen.into_iter().collect() }
         }),
         3 => (hist::request(schema), any::<bool>()).prop_map(|(req, native)| Case::Events { req, native }),
+        3 => rows_case(),
     ]
     .boxed()
 }
@@ -262,12 +292,89 @@ pub fn check(case: &Case, env: &mut CaseEnv) -> Result<(), Failure> {
                     env.nontrivial(&format!("{:?}", req));
                 }
             }
+            Case::Rows { strs, rows, timestamp } => {
+                // the client's way of building a message: one row at a time
+                let mut eb = EventBuffer::default();
+                let names: Vec<String> = (0..strs.len()).map(|c| format!("c{}", c)).collect();
+                {
+                    let tb = eb.tables.entry("t".to_string()).or_default();
+                    for (r, row) in rows.iter().enumerate() {
+                        let mut items: Vec<(String, AnyVal)> = row.iter().enumerate().map(|(c, cell)| (names[c].clone(), cell_to_anyval(cell))).collect();
+                        if *timestamp {
+                            items.push(("timestamp".to_string(), AnyVal::Float(r as f64 + 0.5)));
+                        }
+                        tb.push_row_and_timestamp(items);
+                    }
+                }
+                // the model: a numeric column that ever received a float is a float column (ints logged into it are
+                // converted, as the row API documents by construction); everything else is kept as logged
+                let mut exp: BTreeMap<String, Vec<Cell>> = BTreeMap::new();
+                for (c, name) in names.iter().enumerate() {
+                    let any_float = rows.iter().any(|r| matches!(r[c], Cell::Float(_)));
+                    let any_int = rows.iter().any(|r| matches!(r[c], Cell::Int(_)));
+                    let any_null = rows.iter().any(|r| r[c].is_null());
+                    let first_late = rows.first().map(|r| r[c].is_null()).unwrap_or(false) && (any_float || any_int);
+                    env.class(match (strs[c], any_float, any_int) { (true, _, _) => "rows:string", (_, true, true) => "rows:int_and_float", (_, true, false) => "rows:float", (_, false, true) => "rows:int", _ => "rows:all_null" });
+                    if any_null && (any_float || any_int) { env.class("rows:gaps"); }
+                    if first_late { env.class("rows:first_value_late"); }
+                    let int_after_gap_in_float = (1..rows.len()).any(|r| matches!(rows[r][c], Cell::Int(_)) && rows[r - 1][c].is_null() && matches!(rows[0][c], Cell::Float(_)));
+                    if int_after_gap_in_float { env.class("rows:int_after_gap_in_dense_float"); }
+                    exp.insert(name.clone(), rows.iter().map(|r| match &r[c] { Cell::Int(i) if any_float => Cell::float(*i as f64), other => other.clone() }).collect());
+                }
+                if *timestamp {
+                    exp.insert("timestamp".to_string(), (0..rows.len()).map(|r| Cell::float(r as f64 + 0.5)).collect());
+                }
+                let compare = |stage: &str, tb: &locustdb_serialization::event_buffer::TableBuffer| -> Result<(), Failure> {
+                    if tb.len() != rows.len() {
+                        return Err(Failure::mismatch(format!("{}: {} rows logged, table buffer has {}", stage, rows.len(), tb.len())).tag("rows_len"));
+                    }
+                    let mut got: BTreeMap<String, Vec<Cell>> = tb.columns().map(|(n, c)| (n.clone(), column_data_cells(&c.data, rows.len()))).collect();
+                    if !*timestamp {
+                        // the buffer stamps each row with the wall clock: any finite float per row is right
+                        match got.remove("timestamp") {
+                            Some(ts) if ts.iter().all(|c| matches!(c, Cell::Float(f) if f.get().is_finite())) => {}
+                            None if rows.is_empty() => {}
+                            other => return Err(Failure::mismatch(format!("{}: automatic timestamp column is {:?} for {} rows", stage, other, rows.len())).tag("rows_timestamp")),
+                        }
+                    }
+                    // a column that only ever received NULL may be absent
+                    for (n, cells) in &exp {
+                        if !got.contains_key(n) && cells.iter().all(|c| c.is_null()) {
+                            got.insert(n.clone(), cells.clone());
+                        }
+                    }
+                    if &got != &exp {
+                        let col = exp.keys().find(|k| got.get(*k) != exp.get(*k)).cloned().unwrap_or_default();
+                        return Err(Failure::mismatch(format!("{}: column {:?} logged as {:?} reads {:?} (columns present: {:?})", stage, col, exp.get(&col), got.get(&col), got.keys().collect::<Vec<_>>())).tag("rows_cells"));
+                    }
+                    Ok(())
+                };
+                compare("row API", &eb.tables["t"])?;
+                let bytes = eb.serialize();
+                let back = EventBuffer::deserialize(&bytes).map_err(|e| Failure::mismatch(format!("own event buffer does not decode: {}", e)))?;
+                match back.tables.get("t") {
+                    Some(tb) => compare("after the wire round trip", tb)?,
+                    None if rows.is_empty() => {}
+                    None => return Err(Failure::mismatch("table missing after the wire round trip".to_string()).tag("rows_table")),
+                }
+                if rows.len() >= 3 {
+                    env.nontrivial(&format!("{:?}{:?}", strs, rows));
+                }
+            }
         }
         Ok(())
     };
     // the codecs run in the calling thread: a panic is a failure of the call
     let before = db::panics().len();
-    match std::panic::catch_unwind(std::panic::AssertUnwindSafe(run)) {
+    let r = std::panic::catch_unwind(std::panic::AssertUnwindSafe(run));
+    if let Ok(Ok(())) = &r {
+        env.sample(|| {
+            let text = serde_json::to_string(case).unwrap_or_default();
+            let short: String = text.chars().take(600).collect();
+            json!({ "case": short, "truncated": text.len() > 600, "outcome": "round trip reproduced every value" })
+        });
+    }
+    match r {
         Ok(r) => r,
         Err(_) => {
             let p = db::panics().get(before).cloned();
